@@ -69,6 +69,14 @@ def expand(m, v, check_positions=None, kw=None, stats=None, repair=True):
     kw = kw or {}
     out = set()
     cps = check_positions(v) if check_positions else default_check_positions(v)
+    if not check_positions:
+        try:
+            from . import synth
+            for ps in synth.table_check_positions(m.__name__, m, v):
+                if ps not in cps:
+                    cps = [ps] + cps
+        except Exception:
+            pass
     tried = 0
     xc = extra_chars(m)
     for i, ch in enumerate(v):
